@@ -94,14 +94,44 @@ def canon_model_calls(resp):
 
 def compare_case(res, run, resp, structure=True):
     """res: result of run_impl; run: the impl.Run; resp: the model's answer"""
+    net1 = None
+    if structure and run is not None:
+        try:
+            net1 = run.net_structure()
+        except Exception as ex:  # noqa: BLE001
+            net1 = {"error": type(ex).__name__}
+    return compare_calls(sc.canon_impl_calls(res), run.net0 if (structure and run is not None) else None, net1, resp)
+
+
+def compare_calls(ic, net0, net1, resp, proj=None):
+    """ic: canonical implementation calls; net0 / net1: the implementation's net after construction / at the end
+    (None: not compared); proj: property projection applied to both sides in addition (None: everything)"""
     if "error" in resp:
         return "model error: " + resp["error"]
-    if structure and run is not None:
-        d = diff_net(run.net0, resp["net0"], "net after construction")
+    if net0 is not None:
+        d = diff_net(net0, resp["net0"], "net after construction")
         if d:
             return d
-    ic = sc.canon_impl_calls(res)
     mc = canon_model_calls(resp)
+    if any(b.get("stuck") == "outOfFuel" for b in mc):
+        return None  # never a verdict
+    if proj is not None:
+        n = min(len(ic), len(mc))
+        raised = [i for i in range(n) if ic[i]["exc"] or mc[i]["exc"]]
+        cut = raised[0] if raised else n
+        if raised and bool(ic[cut]["exc"]) != bool(mc[cut]["exc"]):
+            return "call %d (%s): implementation exc=%r, model exc=%r" % (cut, ic[cut]["op"]["op"], ic[cut]["exc"], mc[cut]["exc"])
+        a = [c for c in ic[:cut] if c["op"]["op"] != "witness"]
+        b = mc[:cut]
+        pa, pb = proj(sc.rename_ids(a)), proj(sc.rename_ids(b))
+        if pa != pb:
+            for i, (x, y) in enumerate(zip(pa, pb)):
+                if x != y:
+                    return "call %d: implementation %s / model %s" % (i, str(x)[:300], str(y)[:300])
+            return "number of calls: implementation %d / model %d" % (len(pa), len(pb))
+        if not raised and net1 is not None:
+            return diff_net(net1, resp["net1"], "net at the end of the run")
+        return None
     for i, (a, b) in enumerate(zip(ic, mc)):
         if b.get("stuck") == "outOfFuel":
             return None  # never a verdict
@@ -128,11 +158,7 @@ def compare_case(res, run, resp, structure=True):
     n_i = len([c for c in ic if c["op"]["op"] != "witness"])
     if n_i != len(mc):
         return "number of calls: implementation %d / model %d" % (n_i, len(mc))
-    if structure and run is not None:
-        try:
-            net1 = run.net_structure()
-        except Exception as ex:  # noqa: BLE001
-            net1 = {"error": type(ex).__name__}
+    if net1 is not None:
         d = diff_net(net1, resp["net1"], "net at the end of the run")
         if d:
             return d
